@@ -558,6 +558,8 @@ class Scheduler:
                 logger.info("Re-submitting job")
                 self.xp.unfinishedJobs += 1
                 self.jobs[job.identifier] = job
+                # The outcome of this submission replaces the failure
+                self.xp.failedJobs.pop(job.identifier, None)
             else:
                 logger.warning("Job %s already submitted", job.identifier)
                 return other
